@@ -6,7 +6,8 @@
    input on which the library raises is answered [PInvalid] (the number names the raise statement).
 
    Sources modelled (statement by statement; all in /repo/pycdlib):
-     pycdlib.py  _walk_directories: dirs = deque([root]); the 'Directory loop' test; seek + read of
+     pycdlib.py  _walk_directories: dirs = deque([root]); the 'Directory loop' / 'Overlapping directories'
+                 tests (ps_enter); seek + read of
                  data_length bytes; `while offset < length`; 'Invalid directory record' (short
                  data); lenbyte == 0 -> padsize / 'Invalid padding on ISO'; DirectoryRecord.parse
                  of data[offset:offset+lenbyte]; the Inode created or SHARED through the dict
@@ -308,32 +309,50 @@ End Scan.
 
 (* ---- the walk ---------------------------------------------------------------------------------------- *)
 
-Definition ps_begin_dir (st : pstate) (q : list (Z * Z)) (ext : Z) : pstate :=
-  mk_pstate (s_dirs st) [] q (s_inodes st) (s_e2i st) (ext :: s_seen st) (s_level st) (s_lastbyte st).
+Definition ps_begin_dir (st : pstate) (q : list (Z * Z)) (seen : list Z) : pstate :=
+  mk_pstate (s_dirs st) [] q (s_inodes st) (s_e2i st) seen (s_level st) (s_lastbyte st).
+
+(* dir_block_range (commit 863c802): the blocks of the directory that lie inside the image, at least one *)
+Definition ps_range (isz ext len : Z) : list Z :=
+  map (fun k => ext + Z.of_nat k)
+      (seq 0 (Z.to_nat (Z.max (ceiling_div (Z.min len (Z.max (isz - ext * BS) 0)) BS) 1))).
+
+(* entering a directory.  [fixed = true], the code after commit 863c802: [seen] is seen_dir_blocks; a block of
+   the range seen before -> 'Overlapping directories on the ISO' (9).  That commit also dropped the line
+   seen_dir_extents.add(...): the set stays empty and 'Directory loop on the ISO' (7) can no longer be raised.
+   [fixed = false], the code before it: [seen] is seen_dir_extents, raise 7 *)
+Definition ps_enter (fixed : bool) (isz : Z) (seen : list Z) (ext len : Z) : Z + list Z :=
+  if fixed then
+    let r := ps_range isz ext len in
+    if existsb (fun b => ps_mem b seen) r then inl 9 else inr (r ++ seen)
+  else if ps_mem ext seen then inl 7 else inr (ext :: seen).
 
 Definition ps_end_dir (st : pstate) : pstate :=
   mk_pstate (s_dirs st ++ [s_cur st]) [] (s_queue st) (s_inodes st) (s_e2i st) (s_seen st)
             (s_level st) (s_lastbyte st).
 
 (* [rd ext len]: self._seek_to_extent(ext); cdfp.read(len); None = the medium is not described there *)
-Fixpoint ps_walk (fuel : nat) (rd : Z -> Z -> option (list Z)) (ptr : list Z) (isz : Z) (st : pstate)
-  : presult pstate :=
+Fixpoint ps_walk (fixed : bool) (fuel : nat) (rd : Z -> Z -> option (list Z)) (ptr : list Z) (isz : Z)
+         (st : pstate) : presult pstate :=
   match fuel with
   | O => PFuel
   | S f =>
       match s_queue st with
       | [] => POk st
       | (ext, len) :: q =>
-          if ps_mem ext (s_seen st) then PInvalid 7 else        (* 'Directory loop on the ISO' *)
-          match rd ext len with
-          | None => PUnsupported 3                              (* blocks the image does not describe *)
-          | Some data =>
-              match ps_scan (ps_record ptr isz) (S (length data)) data 0 len
-                            (ps_begin_dir st q ext, None) with
-              | POk (st', _) => ps_walk f rd ptr isz (ps_end_dir st')
-              | PInvalid w => PInvalid w
-              | PUnsupported w => PUnsupported w
-              | PFuel => PFuel
+          match ps_enter fixed isz (s_seen st) ext len with
+          | inl w => PInvalid w
+          | inr seen =>
+              match rd ext len with
+              | None => PUnsupported 3                          (* blocks the image does not describe *)
+              | Some data =>
+                  match ps_scan (ps_record ptr isz) (S (length data)) data 0 len
+                                (ps_begin_dir st q seen, None) with
+                  | POk (st', _) => ps_walk fixed f rd ptr isz (ps_end_dir st')
+                  | PInvalid w => PInvalid w
+                  | PUnsupported w => PUnsupported w
+                  | PFuel => PFuel
+                  end
               end
           end
       end
@@ -349,18 +368,19 @@ Definition ps_init (root_ext root_len : Z) : pstate :=
   mk_pstate [] [] [(root_ext, root_len)] [] [] [] 1 0.
 
 (* root_dir_record.set_ptr(path_table_records[0]): IndexError on an empty path table *)
-Definition ps_parse (fuel : nat) (rd : Z -> Z -> option (list Z)) (ptr : list Z) (isz root_ext root_len : Z)
-  : presult pgraph :=
+Definition ps_parse_gen (fixed : bool) (fuel : nat) (rd : Z -> Z -> option (list Z)) (ptr : list Z)
+           (isz root_ext root_len : Z) : presult pgraph :=
   match ptr with
   | [] => PInvalid 8
   | _ =>
-      match ps_walk fuel rd ptr isz (ps_init root_ext root_len) with
+      match ps_walk fixed fuel rd ptr isz (ps_init root_ext root_len) with
       | POk st => POk (ps_graph st)
       | PInvalid w => PInvalid w
       | PUnsupported w => PUnsupported w
       | PFuel => PFuel
       end
   end.
+Definition ps_parse := ps_parse_gen true.
 
 (* the medium given as a finite map of directory extents (Master.image) *)
 Definition parse (fuel : nat) (img : image) (ptr : list Z) (isz root_ext root_len : Z) : presult pgraph :=
@@ -373,8 +393,9 @@ Definition ps_file_read (bytes : list Z) (ext len : Z) : option (list Z) :=
   else Some (firstn (Z.to_nat (Z.min len (zlen bytes)))
                     (skipn (Z.to_nat (Z.min (ext * BS) (zlen bytes))) bytes)).   (* = bytes[ext*2048:][:len] *)
 
-Definition parse_file (fuel : nat) (bytes : list Z) (ptr : list Z) (root_ext root_len : Z) : presult pgraph :=
-  ps_parse fuel (ps_file_read bytes) ptr (zlen bytes) root_ext root_len.
+Definition parse_file_gen (fixed : bool) (fuel : nat) (bytes : list Z) (ptr : list Z) (root_ext root_len : Z)
+  : presult pgraph := ps_parse_gen fixed fuel (ps_file_read bytes) ptr (zlen bytes) root_ext root_len.
+Definition parse_file := parse_file_gen true.
 
 (* ---- the writer's object graph, numbered breadth first ---------------------------------------------- *)
 
@@ -409,6 +430,10 @@ Fixpoint ps_spec_kids (dt : list Z) (DB FB : list dirrec) (p : list nat) (j : na
   | _, _ => st
   end.
 
+(* the blocks of a directory extent of data_length dl *)
+Definition ps_blocks_of (ext dl : Z) : list Z :=
+  map (fun k => ext + Z.of_nat k) (seq 0 (Z.to_nat (Z.max (ceiling_div dl BS) 1))).
+
 Definition ps_dot_prec (r : drec) (i eth oth : Z) : prec := mk_prec r 34 1 (data_len r) None None i eth oth.
 
 (* the directory at position p (data_length dl, children[2:] = kids) *)
@@ -418,7 +443,7 @@ Definition ps_spec_dir (dt : list Z) (t : node) (DB FB : list dirrec) (p : list 
   let dot := ms_rec dt (ms_ext_at DB p) dl 2 [0] in
   let dotdot := ms_rec dt (ms_ext_at DB (removelast p)) (ms_dlen_at t (removelast p)) 2 [1] in
   let st0 := mk_pstate (s_dirs st) [ps_dot_prec dot 0 1 34; ps_dot_prec dotdot 1 1 68] (tl (s_queue st))
-                       (s_inodes st) (s_e2i st) (ms_ext_at DB p :: s_seen st) 3 (s_lastbyte st) in
+                       (s_inodes st) (s_e2i st) (ps_blocks_of (ms_ext_at DB p) dl ++ s_seen st) 3 (s_lastbyte st) in
   ps_end_dir (ps_spec_kids dt DB FB p 0 kids (skipn 2 cache) st0).
 
 Fixpoint ps_items (p : list nat) (j : nat) (kids : list node) : list (list nat * node) :=
